@@ -746,6 +746,10 @@ func c08(c *Ctx) {
 	c.c08Add()
 	c.c08Lookups()
 	c.errorDispositions("C08.S10", []string{"outputstream"}, nil, "Add / Delete report success although the store was not changed")
+	// … and Add / Delete fail only when the database does: the state machine treats a failed Add as fatal for the node
+	for _, name := range []string{"outputstream.(*OutputStream).Add", "outputstream.(*OutputStream).Delete"} {
+		c.noOwnErrors("C08.S10", c.P.Func(name), "the state machine stops the node on a failed Add: an input the output stream refuses (an empty batch, text that is not UTF-8) kills every node that applies the entry")
+	}
 	// ---------- S6 error and iterator discipline of the package
 	{
 		nErr, nPos := 0, 0
